@@ -133,9 +133,10 @@ def run(repo: Repo, rep: Report) -> None:
                        and len(c.args[0].elts) == 3 and isinstance(c.args[0].elts[1], ast.Attribute) and c.args[0].elts[1].attr == "first" for c in own_nodes(fn))
         if has_first(f0):
             return f0
-        for c in own_nodes(f0):
-            if isinstance(c, ast.Call) and isinstance(c.func, ast.Attribute) and isinstance(c.func.value, ast.Name) and c.func.value.id == "self" and c.func.attr in methods and has_first(methods[c.func.attr]):
-                return methods[c.func.attr]
+        # (a plain call `self.h(end, item)`, or h applied to the items by a higher-order callable: `functools.reduce(self.h, items, end)`)
+        for _c, hname, _over, _args in _Hb.method_uses(col, f0, methods):
+            if has_first(methods[hname]):
+                return methods[hname]
         return f0
 
     for m in ("append", "__iadd__"):
@@ -319,15 +320,23 @@ def run(repo: Repo, rep: Report) -> None:  # noqa: F811
     rets = [r for r in own_nodes(gc) if isinstance(r, ast.Return) and r.value is not None and not (isinstance(r.value, ast.Constant) and r.value.value is None)]
     if not rets:
         raise AnalysisError("%s: no value return" % gc_name)
+    # Stated on values and paths: every value a return can hand out (each arm of a conditional expression is a return of its own: `return None if c == nil
+    # else c` is `if c == nil: return None / return c`) is None, or a name for which `!= rdf:nil` is established where it is returned - by the test of
+    # the conditional expression that selects it, or by a branch edge on every path to the return (h_c19.never_nil_at_return)
+    g_gc = CFG(gc)
     for r in rets:
-        cur = norm(r.value)
-        guard = [n for n in own_nodes(gc) if isinstance(n, ast.If) and n.lineno < r.lineno and any(isinstance(c, ast.Compare) and {norm(c.left), norm(c.comparators[0])} == {cur, "RDF.nil"} for c in ast.walk(n.test))
-                 and any(isinstance(x, ast.Return) and (x.value is None or (isinstance(x.value, ast.Constant) and x.value.value is None)) for x in n.body)]
-        loop_excl = [n for n in own_nodes(gc) if isinstance(n, ast.While) and "RDF.nil" in norm(n.test) and cur in norm(n.test)]
-        ok = bool(guard)
-        rep.ob("C19.g-nil-is-not-a-cell", col, "Collection." + gc_name, "return %s" % cur, ok,
-               "rdf:nil is mapped to None before the return" if ok else
-               "for index == len(list) the walk ends on rdf:nil and returns it as if it were a cell: __getitem__ raises KeyError instead of IndexError, and __setitem__ writes (rdf:nil rdf:first x) into the graph", node=r)
+        for val, conds in _Hc.returned_alternatives(r.value):
+            if _Hc._none(val):
+                continue
+            cur = norm(val)
+            ok = _Hc.never_nil_at_return(g_gc, col, r, val, conds)
+            if ok is None:
+                # not a plain name: the guard has to be written on the same expression, before the return
+                ok = bool([n for n in own_nodes(gc) if isinstance(n, ast.If) and n.lineno < r.lineno and any(isinstance(c, ast.Compare) and {norm(c.left), norm(c.comparators[0])} == {cur, "RDF.nil"} for c in ast.walk(n.test))
+                           and any(isinstance(x, ast.Return) and (x.value is None or (isinstance(x.value, ast.Constant) and x.value.value is None)) for x in n.body)])
+            rep.ob("C19.g-nil-is-not-a-cell", col, "Collection." + gc_name, "return %s" % cur, ok,
+                   "rdf:nil is mapped to None before the return" if ok else
+                   "for index == len(list) the walk ends on rdf:nil and returns it as if it were a cell: __getitem__ raises KeyError instead of IndexError, and __setitem__ writes (rdf:nil rdf:first x) into the graph", node=r)
     for name in ("__getitem__", "__setitem__"):
         f = m[name]
         raises = any(isinstance(n, ast.Raise) and "IndexError" in norm(n) for n in own_nodes(f))
@@ -420,14 +429,16 @@ def run(repo: Repo, rep: Report) -> None:  # noqa: F811
         adds = _first_adds(f)
         if not adds:
             # the cell is written by a helper that is handed each item: the helper is judged, and in __iadd__ it has to be called once per item (inside the loop)
-            calls = [c for c in own_nodes(f) if isinstance(c, ast.Call) and isinstance(c.func, ast.Attribute) and norm(c.func.value) == "self" and c.func.attr in m and _first_adds(m[c.func.attr])]
+            # (called in a loop, or applied once per element by a higher-order callable: `functools.reduce(self.h, items, end)` is `for x in items: end = self.h(end, x)`)
+            uses = [u for u in H.method_uses(col, f, m) if _first_adds(m[u[1]])]
+            calls = [u[0] for u in uses]
             if not calls:
                 raise AnalysisError("Collection.%s adds no rdf:first" % name)
             if name == "__iadd__":
-                per_item = all(any(isinstance(p_, (ast.For, ast.While)) for p_ in col.parents(c) if p_ is not f) for c in calls)
+                per_item = all(over is not None or any(isinstance(p_, (ast.For, ast.While)) for p_ in col.parents(c) if p_ is not f) for c, _n, over, _a in uses)
                 rep.ob("C19.j-cell-occupancy-is-read-from-the-graph", col, "Collection." + name, calls[0], per_item,
                        "the cell-writing helper is called once per item" if per_item else "the cell-writing helper is not called inside the loop over the items", node=calls[0])
-            f = m[calls[0].func.attr]
+            f = m[uses[0][1]]
             adds = _first_adds(f)
         # which cell does the write fill?  By value flow (copies, casts and both arms of a conditional expression are followed): a node made in
         # this pass (BNode()), or a cell that was there before - then the graph has to be asked about THAT cell in this pass (loop round / call),
@@ -476,26 +487,32 @@ def run(repo: Repo, rep: Report) -> None:  # noqa: F811
 
     def _mutates(fn):
         return any(isinstance(c, ast.Call) and isinstance(c.func, ast.Attribute) and c.func.attr in ("add", "remove", "set") and "graph" in norm(c.func.value) for c in own_nodes(fn))
-    muts = [c for c in own_nodes(f) if isinstance(c, ast.Call) and isinstance(c.func, ast.Attribute) and (
-        c.func.attr in ("add", "remove", "set") and "graph" in norm(c.func.value)
-        or norm(c.func.value) == "self" and c.func.attr in _meths and _mutates(_meths[c.func.attr]))]
+    from vlib import h_c19 as _Hk
+
+    # a change made through a method of the class: a plain call of it, or the method applied once per element of an iterable by a higher-order
+    # callable (`functools.reduce(self.h, items, end)`) - then that iterable is walked like the iterable of a `for`, and the changes are per item
+    _uses = [u for u in _Hk.method_uses(col, f, _meths) if _mutates(_meths[u[1]])]
+    _applied_over = {id(c): over for c, _n, over, _a in _uses if over is not None}
+    muts = [c for c in own_nodes(f) if isinstance(c, ast.Call) and isinstance(c.func, ast.Attribute) and c.func.attr in ("add", "remove", "set") and "graph" in norm(c.func.value)]
+    muts += [c for c, _n, _o, _a in _uses if not any(c is x for x in muts)]
     if not muts:
         raise AnalysisError("Collection.__iadd__: no graph mutation found")
     first_mut = min(c.lineno for c in muts)
     mat = [a for a in own_nodes(f) if isinstance(a, ast.Assign) and isinstance(a.value, ast.Call) and norm(a.value.func) in ("list", "tuple") and a.value.args and norm(a.value.args[0]) == par and a.lineno < first_mut]
     loops_ = [n for n in own_nodes(f) if isinstance(n, ast.For)]
     src = norm(mat[0].targets[0]) if mat else None
-    ok1 = bool(mat) and all(norm(l.iter) == src for l in loops_)
+    ok1 = bool(mat) and all(norm(l.iter) == src for l in loops_) and all(norm(o) == src for o in _applied_over.values())
     rep.ob("C19.k-iadd-works-on-a-materialised-nonempty-input", col, "Collection.__iadd__", mat[0] if mat else "for item in %s" % par, ok1,
            "materialised before the first graph change" if ok1 else "the loop walks the argument itself while cells are appended: `c += c` does not terminate", node=mat[0] if mat else (loops_[0] if loops_ else f))
     early = [n for n in own_nodes(f) if isinstance(n, ast.If) and n.lineno < first_mut and isinstance(n.test, ast.UnaryOp) and isinstance(n.test.op, ast.Not) and norm(n.test.operand) in (src, par)
              and any(isinstance(r, ast.Return) for r in n.body)]
     # (nothing to guard if every change to the graph is made inside the loop over the items: no item, no change)
-    outside = [c for c in muts if not any(isinstance(p_, (ast.For, ast.While)) and norm(getattr(p_, "iter", p_)) == src for p_ in col.parents(c) if p_ is not f)]
-    no_change_without_items = not early and not outside and bool(loops_)
+    outside = [c for c in muts if not (id(c) in _applied_over and norm(_applied_over[id(c)]) == src)
+               and not any(isinstance(p_, (ast.For, ast.While)) and norm(getattr(p_, "iter", p_)) == src for p_ in col.parents(c) if p_ is not f)]
+    no_change_without_items = not early and not outside and (bool(loops_) or bool(_applied_over))
     shown = early[0].test if early else ("every change is made per item, in `for .. in %s`" % src if no_change_without_items else "if not <items>: return self")
     rep.ob("C19.k-iadd-works-on-a-materialised-nonempty-input", col, "Collection.__iadd__", shown, bool(early) or no_change_without_items,
-           "nothing to add: the graph is left alone" if (early or no_change_without_items) else "with an empty argument the terminator is detached and re-attached anyway: on an empty list `c += []` leaves (head rdf:rest rdf:nil) without rdf:first, after which c[0] raises KeyError", node=early[0] if early else (loops_[0] if no_change_without_items else f))
+           "nothing to add: the graph is left alone" if (early or no_change_without_items) else "with an empty argument the terminator is detached and re-attached anyway: on an empty list `c += []` leaves (head rdf:rest rdf:nil) without rdf:first, after which c[0] raises KeyError", node=early[0] if early else ((loops_[0] if loops_ else next(c for c in muts if id(c) in _applied_over)) if no_change_without_items else f))
 
 
 _run_base4 = run
@@ -777,7 +794,7 @@ def run(repo: Repo, rep: Report) -> None:  # noqa: F811
                 continue
             al = _graph_aliases(f)
             if any(_gcall(c, al, {"add", "set", "remove", "addN"}) for c in own_nodes(f)) or any(
-                    isinstance(c, ast.Call) and isinstance(c.func, ast.Attribute) and norm(c.func.value) == "self" and c.func.attr in mutating for c in own_nodes(f)) or any(
+                    hname in mutating for _c, hname, _o, _a in H.method_uses(col, f, methods)) or any(
                     isinstance(c, ast.AugAssign) and norm(c.target) == "self" and "__iadd__" in mutating for c in own_nodes(f)):
                 mutating.add(mname)
                 changed = True
@@ -794,6 +811,9 @@ def run(repo: Repo, rep: Report) -> None:  # noqa: F811
     raw_params: dict[str, set[str]] = {m: (set() if private(m) else set(params(f)[1:])) for m, f in methods.items()}
     cfgs = {m: CFG(f) for m, f in methods.items() if m in mutating}
 
+    handed: dict[int, tuple[str, list]] = {}   # event (a call on self, plain or applied) -> (method, positional arguments of one call)
+    applied: dict[str, dict] = {}
+
     def events(mname):
         """(call/statement, argument expressions, kind) for every change to the graph made by the method's own statements"""
         f = methods[mname]
@@ -803,7 +823,14 @@ def run(repo: Repo, rep: Report) -> None:  # noqa: F811
                 args = list(c.args[0].elts) if c.args and isinstance(c.args[0], ast.Tuple) else list(c.args)
                 yield c, args, c.func.attr
             elif isinstance(c, ast.Call) and isinstance(c.func, ast.Attribute) and norm(c.func.value) == "self" and c.func.attr in mutating:
+                handed[id(c)] = (c.func.attr, list(c.args))
                 yield c, list(c.args) + [k.value for k in c.keywords], "self." + c.func.attr
+            elif isinstance(c, ast.Call) and id(c) in applied.setdefault(mname, {id(a.node): a for a in H.applications(col, f, methods) if a.name in mutating}):
+                # a mutating method applied once per element by a higher-order callable: the same event as the call in a loop, an element of the
+                # iterable stood for by the iterable (a member of a caller-supplied sequence is caller-supplied)
+                a_ = applied[mname][id(c)]
+                handed[id(c)] = (a_.name, list(a_.args))
+                yield c, list(a_.args), "self." + a_.name
             elif isinstance(c, ast.AugAssign) and norm(c.target) == "self" and isinstance(c.op, ast.Add):
                 yield c, [c.value], "self.__iadd__"
 
@@ -813,12 +840,13 @@ def run(repo: Repo, rep: Report) -> None:  # noqa: F811
         for mname in mutating:
             g = cfgs[mname]
             for c, args, kind in events(mname):
-                if kind.startswith("self.") and isinstance(c, ast.Call) and private(c.func.attr):
-                    ps = params(methods[c.func.attr])[1:]
+                if kind.startswith("self.") and id(c) in handed and private(handed[id(c)][0]):
+                    callee, pargs = handed[id(c)]
+                    ps = params(methods[callee])[1:]
                     at = g.node_of(c, col)
-                    for i, a in enumerate(c.args):
-                        if i < len(ps) and ps[i] not in raw_params[c.func.attr] and H.is_raw(g, at, a, raw_params[mname]):
-                            raw_params[c.func.attr].add(ps[i])
+                    for i, a in enumerate(pargs):
+                        if i < len(ps) and ps[i] not in raw_params[callee] and H.is_raw(g, at, a, raw_params[mname]):
+                            raw_params[callee].add(ps[i])
                             changed = True
     rep.info["raw_parameters_of_private_helpers"] = {m: sorted(v) for m, v in raw_params.items() if private(m) and v}
     n_ref = 0
@@ -880,7 +908,10 @@ def run(repo: Repo, rep: Report) -> None:  # noqa: F811
             continue
         if g is None:
             g = CFG(f)
-        falls = [p_ for p_ in g.pred[g.exit] if g.reachable(p_) and not (isinstance(g.nodes[p_].ast, ast.Return) and g.nodes[p_].ast.value is not None)]
+        # (a `for` over an iterator that never runs out - itertools.count() - is a `while True`: nothing falls out of it, and nothing after it is reached)
+        live = H.reachable_without_exhaustion(g, mod)
+        falls = [p_ for p_ in g.pred[g.exit] if p_ in live and not (isinstance(g.nodes[p_].ast, ast.Return) and g.nodes[p_].ast.value is not None)
+                 and not (g.nodes[p_].kind == "iter" and H.endless_for(mod, g.nodes[p_].ast) and g.edge_label.get((p_, g.exit)) not in ("true", "exc"))]
         rep.ob("C19.s-member-loops-go-round-and-verdicts-are-values", mod, q, "every path ends in `return <value>`", not falls,
                "%d return statement(s), no path falls off the end" % len(valued) if not falls else
                "a path leaves the method after `%s` without a return: the caller gets None where the other paths answer %s" % (
